@@ -92,6 +92,9 @@ pub(crate) struct SimplexPipe<F> {
     pending_chunk: Option<Data>,
     direction: SimplexDirection,
     last_activity: Instant,
+    /// The source reported EOF and it was passed on to the sink: nothing is left to do
+    /// in this direction
+    finished: bool,
 }
 
 pub(crate) struct Error<T> {
@@ -136,6 +139,7 @@ impl<F: Fn(SimplexDirection, usize) + Send> SimplexPipe<F> {
             pending_chunk: Default::default(),
             direction,
             last_activity: Instant::now(),
+            finished: false,
         }
     }
 
@@ -145,6 +149,11 @@ impl<F: Fn(SimplexDirection, usize) + Send> SimplexPipe<F> {
         id: T,
         timeout: Duration,
     ) -> Result<ExchangeOnceStatus<T>, Error<T>> {
+        if self.finished {
+            // The other direction decides when the pipe is over
+            return future::pending().await;
+        }
+
         loop {
             self.last_activity = Instant::now();
 
@@ -200,12 +209,13 @@ impl<F: Fn(SimplexDirection, usize) + Send> SimplexPipe<F> {
                 }
                 Data::Eof => {
                     self.sink.eof().map_err(|e| io_to_pipe_error(id, e))?;
-                    break self
-                        .sink
+                    self.sink
                         .flush()
                         .await
-                        .map(|()| ExchangeOnceStatus::Finished(id))
-                        .map_err(|e| io_to_pipe_error(id, e));
+                        .map_err(|e| io_to_pipe_error(id, e))?;
+                    self.finished = true;
+                    self.last_activity = Instant::now();
+                    break Ok(ExchangeOnceStatus::Finished(id));
                 }
             }
         }
@@ -252,33 +262,32 @@ impl<F: Fn(SimplexDirection, usize) + Send + Clone> DuplexPipe<F> {
         timeout: Duration,
         id: &log_utils::IdChain<u64>,
     ) -> io::Result<ExchangeOnceStatus<()>> {
-        let f1 = self.left_pipe.exchange(self.left_pipe.direction, timeout);
-        futures::pin_mut!(f1);
-        let f2 = self.right_pipe.exchange(self.right_pipe.direction, timeout);
-        futures::pin_mut!(f2);
+        let result = {
+            let f1 = self.left_pipe.exchange(self.left_pipe.direction, timeout);
+            futures::pin_mut!(f1);
+            let f2 = self.right_pipe.exchange(self.right_pipe.direction, timeout);
+            futures::pin_mut!(f2);
 
-        match future::try_select(f1, f2).await {
-            Ok(Either::Left((ExchangeOnceStatus::Finished(dir), another)))
-            | Ok(Either::Right((ExchangeOnceStatus::Finished(dir), another))) => {
+            match future::try_select(f1, f2).await {
+                Ok(Either::Left((x, _))) | Ok(Either::Right((x, _))) => Ok(x),
+                Err(Either::Left((e, _))) | Err(Either::Right((e, _))) => Err(e),
+            }
+        };
+
+        match result {
+            Ok(ExchangeOnceStatus::Finished(dir)) => {
                 log_dir!(trace, id, dir, "Pipe gracefully closed");
-                let ret = match another.await {
-                    Ok(ExchangeOnceStatus::Finished(_)) => Ok(ExchangeOnceStatus::Finished(())),
-                    Ok(ExchangeOnceStatus::TimedOut(dir)) => {
-                        Err(io_to_pipe_error(dir, ErrorKind::TimedOut.into()))
-                    }
-                    Err(e) => Err(e),
-                };
-
-                if let Err(e) = &ret {
-                    log_dir!(debug, id, e.id, "Error on pipe: {}", e.io);
+                if self.left_pipe.finished && self.right_pipe.finished {
+                    Ok(ExchangeOnceStatus::Finished(()))
+                } else {
+                    // The end of one direction is an activity of the tunnel like any other:
+                    // the remaining direction starts over with a full idle period, and the
+                    // idle timer keeps judging the tunnel by the last activity of both
+                    Ok(ExchangeOnceStatus::TimedOut(()))
                 }
-                ret.map_err(|e| e.io)
             }
-            Ok(Either::Left((ExchangeOnceStatus::TimedOut(_), _)))
-            | Ok(Either::Right((ExchangeOnceStatus::TimedOut(_), _))) => {
-                Ok(ExchangeOnceStatus::TimedOut(()))
-            }
-            Err(Either::Left((e, _))) | Err(Either::Right((e, _))) => {
+            Ok(ExchangeOnceStatus::TimedOut(_)) => Ok(ExchangeOnceStatus::TimedOut(())),
+            Err(e) => {
                 if e.io.kind() != ErrorKind::WouldBlock {
                     log_dir!(debug, id, e.id, "Error on pipe: {}", e.io);
                 }
